@@ -252,6 +252,9 @@ func leafOf(k string) string {
 	return k
 }
 
+// CLIFixtures is used by "mc clifixtures <dir>" for manual experiments.
+func CLIFixtures(dir string) error { os.MkdirAll(dir, 0o755); return cliFixtures(dir) }
+
 func buildArgs(t cliTemplate, in, out, outdir string, force bool) []string {
 	var a []string
 	for _, x := range t.args {
